@@ -8,11 +8,12 @@ import instgen
 import disread
 from props import common
 
-MODULE = "Rspirv.Props.C07"
+MODULE = "Rspirv.Props.C07Inst"
 P = "Rspirv.Props.C07."
 THEOREMS = [P + n for n in ("filter_map_inj", "maskTok_inj", "debugName_inj", "C07_signed_inj", "C07_lines", "C07_order",
                             "C07_line_count", "C07_shape", "C07_tokens", "C07_plain", "vocabulary_ok", "C07_operand_inj",
-                            "C07_opcode_inj", "C07_extinst_inj", "C07_constant_inj", "C07_constant64_inj", "C07_vocabulary")]
+                            "C07_opcode_inj", "C07_extinst_inj", "C07_constant_inj", "C07_constant64_inj", "C07_vocabulary")] + \
+           ["Rspirv.Props.C07Inst." + n for n in ("operand_inj", "operands_inj", "C07_inst_inj", "C07_insts_inj", "C07_lines_inj")]
 NEEDS = ("header", "core", "glsl", "opencl", "traversals", "decode", "operand_enum", "asm_arms", "parse_operand", "operands",
          "operand_reflect", "disas_operand")
 
@@ -244,7 +245,7 @@ def run(ctx):
         hok, herr = C.build_harness(ctx, bins=("impl",))
         have = C.need(ctx, *NEEDS)
         failing = C.prove(ctx, MODULE, THEOREMS, extra_targets=["driver"],
-                          files=["Rspirv/Props/C07.lean", "Rspirv/Model/Disasm.lean"]) if have else []
+                          files=["Rspirv/Props/C07.lean", "Rspirv/Props/C07Inst.lean", "Rspirv/Model/Disasm.lean"]) if have else []
     for n, e in failing:
         ctx.issue(f"theorem:{n}", f"Lean obligation no longer checks: {e['msg'][:300]}", witness=e)
     if not hok:
